@@ -5,7 +5,8 @@ in:  {"kind": "restart" | "race", "cases": [case], "parallel": n}
 out: [observation per case]
 
 restart case: {"id", "jobs": [{"x": int, "deps": [index], "token": bool}], "token_total": int|None,
-               "phase": "before-launch" | "running" | "between" | "token-held" | "mid-launch",
+               "phase": "before-launch" | "running" | "between" | "token-held" | "mid-launch" | "mid-pidwrite"
+                        | "mid-prepare:after-params" | "mid-prepare:after-script-before-chmod" | "mid-prepare:before-spawn",
                "signal": "SIGKILL" | "SIGTERM" | "SIGINT"}
   An experiment script (a real `experiment`, real `CommandLineJob`s, real job processes) is started in a subprocess;
   task bodies log `start x pid t`, wait for a gate file, log `end x pid t`.  At the phase (file rendezvous) the
@@ -103,6 +104,7 @@ def tap(*a):
 _run = C.CommandLineJob.aio_run
 async def aio_run(self):
     tap("aio_run", self.config.x)
+    CUR["x"] = self.config.x
     if run == "1" and case["phase"] == "before-launch":
         (ws / "at_launch").touch()
         while True:
@@ -150,6 +152,29 @@ class _Json:
                 time.sleep(0.05)
         return json.dump(obj, fp, *a, **k)
 C.json = _Json()
+# death inside CommandLineJob.prepare (script generation): after params.json, after the script before chmod, before the spawn
+CUR = {"x": None}
+def _hold(point):
+    (ws / "prepare_point").write_text(json.dumps({"point": point, "x": CUR["x"]}))
+    tap("prepare-hold", CUR["x"], point)
+    while True:
+        time.sleep(0.05)
+_popen = Path.open
+def popen(self, mode="r", *a, **k):
+    if (run == "1" and case["phase"] == "mid-prepare:after-params" and self.suffix == ".py" and "w" in mode
+            and str(ws / "jobs") in str(self)):
+        _hold("after-params")
+    return _popen(self, mode, *a, **k)
+Path.open = popen
+_setx = LOC.LocalConnector.setExecutable
+def setx(self, path, flag):
+    if run == "1" and case["phase"] == "mid-prepare:after-script-before-chmod":
+        _hold("after-script-before-chmod")
+    r = _setx(self, path, flag)
+    if run == "1" and case["phase"] == "mid-prepare:before-spawn":
+        _hold("before-spawn")
+    return r
+LOC.LocalConnector.setExecutable = setx
 
 final = {"error": None}
 try:
@@ -311,6 +336,8 @@ def run_restart_case(case, timeout=60):
             ok = wait_for(lambda: (ws / "spawned").exists(), timeout)
         elif phase == "mid-pidwrite":
             ok = wait_for(lambda: (ws / "pid_opened").exists(), timeout)
+        elif phase.startswith("mid-prepare"):
+            ok = wait_for(lambda: (ws / "prepare_point").exists(), timeout)
         obs["rendezvous"] = ok
         obs["t_phase"] = round(time.time() - t0, 2)
         os.kill(p1.pid, sig)
@@ -363,6 +390,12 @@ def run_restart_case(case, timeout=60):
             for x in xs:
                 # the gates are closed again: jobs of the second run wait for the harness like in the other cases
                 (ws / f"gate.{x}").unlink()
+        if phase.startswith("mid-prepare") and (ws / "prepare_point").exists():
+            try:
+                obs["prepare"] = json.loads((ws / "prepare_point").read_text())
+            except Exception:
+                obs["prepare"] = None
+            obs["scripts_after_kill"] = sorted([p.name, p.stat().st_size > 0, os.access(p, os.X_OK)] for p in ws.glob("jobs/*/*/*.py"))
         # what the restarted scheduler will find: pid files that name a live process
         ids = json.loads((ws / "ids.1.json").read_text()) if (ws / "ids.1.json").exists() else {}
         live = []
